@@ -5,6 +5,7 @@ package c14
 
 import (
 	"sort"
+	"strings"
 
 	"github.com/evanw/esbuild/verif/jsref"
 	"github.com/evanw/esbuild/verif/jsutil"
@@ -316,4 +317,187 @@ func privateStaticAssignedOutsideClass(in *jsref.Program, out *jsref.Program, ac
 		src = src[:s.start] + "0" + src[s.end:]
 	}
 	return accepts(src)
+}
+
+// enclosingFunctionWalk calls fn for every node with the nearest enclosing function-like node (nil at the
+// top level; arrows count as functions here).
+func enclosingFunctionWalk(root *jsref.Node, fn func(n, encl *jsref.Node)) {
+	var walk func(n, encl *jsref.Node)
+	walk = func(n, encl *jsref.Node) {
+		if n == nil {
+			return
+		}
+		fn(n, encl)
+		inner := encl
+		switch n.Type {
+		case jsref.NFunctionDecl, jsref.NFunctionExpr, jsref.NArrow:
+			inner = n
+		}
+		walk(n.A, inner)
+		walk(n.B, inner)
+		walk(n.C, inner)
+		walk(n.D, inner)
+		for _, x := range n.List {
+			walk(x, inner)
+		}
+	}
+	walk(root, nil)
+}
+
+// forAwaitLeftInLoweredAsync is the signature + confirmation of C14-for-await-kept-in-lowered-async-function:
+// `for-await` is among the true overrides, the configuration lowers async functions (one-line probe), the
+// input uses `for await`; the output contains `for await` loops whose nearest enclosing function is NOT
+// async (the generator that replaced the async function); and after deleting the `await` keyword of exactly
+// those loops the output's census is within the target — i.e. the misplaced `for await` is the only newer
+// syntax. jsref is lenient about where `for await` may stand; it reports the stray await as async-function.
+func forAwaitLeftInLoweredAsync(c Case, in *jsref.Program, out *jsref.Program, isModule bool) bool {
+	if !hasString(c.Supported, "for-await") || in == nil || out == nil || !loweredFeatures(c)[jsref.FeatAsyncFunction] {
+		return false
+	}
+	if _, ok := in.Features[jsref.FeatForAwait]; !ok {
+		return false
+	}
+	var cuts []span
+	enclosingFunctionWalk(out.Body, func(n, encl *jsref.Node) {
+		if n.Type != jsref.NForOf || !n.Has(jsref.FlagAwait) || encl == nil || encl.Has(jsref.FlagAsync) {
+			return
+		}
+		if n.Tok+1 < len(out.Tokens) && out.Tokens[n.Tok].Raw == "for" && out.Tokens[n.Tok+1].Raw == "await" {
+			cuts = append(cuts, span{out.Tokens[n.Tok+1].Start, out.Tokens[n.Tok+1].End})
+		}
+	})
+	if len(cuts) == 0 {
+		return false
+	}
+	sort.Slice(cuts, func(i, j int) bool { return cuts[i].start > cuts[j].start })
+	src := out.Source
+	for _, s := range cuts {
+		src = src[:s.start] + strings.Repeat(" ", s.end-s.start) + src[s.end:]
+	}
+	rep, err := jsref.Parse(src, jsref.Options{Module: isModule})
+	if err != nil {
+		return false
+	}
+	return len(overEdition(c, rep)) == 0
+}
+
+// misplacedSupers returns the `super` nodes of the program that stand in a plain function (declaration or
+// expression that is not the value of a class member or object method/accessor), possibly inside arrows
+// nested in it — where `super` is a SyntaxError.
+func misplacedSupers(p *jsref.Program) (out []*jsref.Node) {
+	var walk func(n *jsref.Node, allowed bool)
+	walk = func(n *jsref.Node, allowed bool) {
+		if n == nil {
+			return
+		}
+		switch n.Type {
+		case jsref.NSuper:
+			if !allowed {
+				out = append(out, n)
+			}
+			return
+		case jsref.NMethod:
+			walk(n.A, allowed)
+			if n.B != nil { // the method's own function: super allowed in parameters and body
+				for _, x := range n.B.List {
+					walk(x, true)
+				}
+				walk(n.B.B, true)
+			}
+			return
+		case jsref.NProperty:
+			if (n.Name == "method" || n.Name == "get" || n.Name == "set") && n.B != nil && n.B.Type == jsref.NFunctionExpr {
+				walk(n.A, allowed)
+				for _, x := range n.B.List {
+					walk(x, true)
+				}
+				walk(n.B.B, true)
+				return
+			}
+		case jsref.NField:
+			walk(n.A, allowed)
+			walk(n.B, true)
+			return
+		case jsref.NStaticBlock:
+			for _, x := range n.List {
+				walk(x, true)
+			}
+			return
+		case jsref.NFunctionDecl, jsref.NFunctionExpr:
+			walk(n.A, false)
+			for _, x := range n.List {
+				walk(x, false)
+			}
+			walk(n.B, false)
+			return
+		}
+		walk(n.A, allowed)
+		walk(n.B, allowed)
+		walk(n.C, allowed)
+		walk(n.D, allowed)
+		for _, x := range n.List {
+			walk(x, allowed)
+		}
+	}
+	walk(p.Body, false)
+	return
+}
+
+// superInLoweredArrow is the signature + confirmation of C14-super-in-lowered-arrow: `arrow` is among the
+// false overrides, the input has `super` inside an arrow function, the engine's message is "'super' keyword
+// unexpected here", the output has `super` in plain function expressions, and with exactly those `super`
+// tokens replaced by `this` the same engine accepts the output.
+func superInLoweredArrow(c Case, in *jsref.Program, out *jsref.Program, accepts func(src string) bool) bool {
+	if !hasString(c.Unsupported, "arrow") || in == nil || out == nil {
+		return false
+	}
+	inArrow := false
+	enclosingFunctionWalk(in.Body, func(n, encl *jsref.Node) {
+		if n.Type == jsref.NSuper && encl != nil && encl.Type == jsref.NArrow {
+			inArrow = true
+		}
+	})
+	if !inArrow {
+		return false
+	}
+	bad := misplacedSupers(out)
+	if len(bad) == 0 {
+		return false
+	}
+	sort.Slice(bad, func(i, j int) bool { return bad[i].Start > bad[j].Start })
+	src := out.Source
+	for _, n := range bad {
+		if n.Start < 0 || n.Start+5 > len(src) || src[n.Start:n.Start+5] != "super" {
+			return false
+		}
+		src = src[:n.Start] + "this " + src[n.Start+5:]
+	}
+	return accepts(src)
+}
+
+// onlyTopLevelAwaits: the program has top-level await(s) and no async function, async arrow, async method,
+// or await / for-await inside any function — so the census feature async-function stems from top-level
+// awaits alone (jsref notes async-function at every await).
+func onlyTopLevelAwaits(p *jsref.Program) bool {
+	if _, ok := p.Features[jsref.FeatTopLevelAwait]; !ok {
+		return false
+	}
+	only := true
+	enclosingFunctionWalk(p.Body, func(n, encl *jsref.Node) {
+		switch n.Type {
+		case jsref.NFunctionDecl, jsref.NFunctionExpr, jsref.NArrow:
+			if n.Has(jsref.FlagAsync) {
+				only = false
+			}
+		case jsref.NAwait:
+			if encl != nil {
+				only = false
+			}
+		case jsref.NForOf:
+			if n.Has(jsref.FlagAwait) && encl != nil {
+				only = false
+			}
+		}
+	})
+	return only
 }
